@@ -479,7 +479,9 @@ C19V(r) ==
     <<"observation-unchanged", r.after = r.before>>,
     <<"twin-observation-unchanged", r.twin_after = r.twin_before>>,
     <<"still-equal-to-twin", r.eq_twin /\ r.twin_eq>>,
-    <<"rendering-unchanged", r.render_after = r.render_before>>
+    <<"rendering-unchanged", r.render_after = r.render_before>>,
+    \* (r.probe_same: three rate queries, rotating through tracks and forms, answered as on a chart parsed just now)
+    <<"queries-answer-as-on-a-chart-parsed-just-now", r.probe_same>>
   >>)
 
 (***************************** beyond the listed properties (drift only) *****)
